@@ -431,6 +431,24 @@ def monitorCall (cfg : Cfg) (cmp : String) (m : MonSt) (name : String) (ln : Nat
             | none => r)
          | .error _ => r)
       | _ => r
+    -- C17: an undetermined endpoint adopts a version only from a CONNECT it accepts (delivered to the
+    -- application, or requested for sending); a refused call leaves the version undetermined
+    let r :=
+      if !m.prev.isEmpty ∧ gp "ver" = "0" ∧ g "ver" ≠ "0" ∧ g "ver" ≠ "" then
+        -- received: a CONNECT frame whose protocol level byte is the adopted version (accepted or refused in
+        -- that version, as a fixed-version server would); sent: a CONNECT requested for sending
+        let adopted := match op with
+          | "recv" :: _ =>
+            let fr := (parseRecvOracle oracle).frame
+            (match fr.splitOn ":" with
+             | [fh, hx] => decide (fh = "16") && (match hexToBytes hx with | some b => decide (toString (b.getD 6 0) = g "ver") | none => false)
+             | _ => false)
+          | _ => evs.any fun (e : Ev) => match e with
+            | .send q _ => q.kind = Kind.connect
+            | _ => false
+        if !adopted then
+          r.viol s!"C17 version_adopted_without_connect@{site}" s!"{here}: the protocol version went from undetermined to {g "ver"} although this call neither received a CONNECT of that protocol level nor accepted one for sending: {evS}" else r
+      else r
     -- C11 (the connection-state column): a refusing CONNACK requested for sending ends the connection attempt
     let r :=
       let refusing := evs.any fun (e : Ev) => match e with
